@@ -90,7 +90,7 @@ ImplAccepts(unit, d, D) ==
      /\ \A e \in Leaves(v) : IF \/ (PosViaDef(unit.pos) /\ "DeclaredArrayElemUnvalidated" \in D)
                                   \/ (ek = "cint" /\ "ArrayItemConstraintsIgnored" \in D)
                                THEN ElemTypedOK(ek, e) ELSE ElemOK(ek, e)
-     /\ IF PosViaDef(unit.pos) /\ "NamedArrayUnvalidated" \in D THEN TRUE
+     /\ IF PosViaDef(unit.pos) THEN ImplDeclArrLengthsAccept(Leaf(unit), v, D)
         ELSE ImplArrLengthsAccept(Leaf(unit), v, D))
 
 \* unit is bound once per state (an operator would be re-evaluated at every use)
